@@ -72,12 +72,14 @@ func (obj *Vector) Simplify() any {
 // Equal returns true if this Object and the other are equal in value.
 func (obj *Vector) Equal(other Object) (eq bool) {
 	if to, ok := other.(*Vector); ok {
-		if len(obj.elements) == len(to.elements) &&
+		// Only the elements below the fill pointer are part of a vector.
+		oe, te := obj.AsList(), to.AsList()
+		if len(oe) == len(te) &&
 			to.elementType == obj.elementType &&
 			to.adjustable == obj.adjustable {
 			eq = true
-			for i, co := range obj.elements {
-				if !ObjectEqual(co, to.elements[i]) {
+			for i, co := range oe {
+				if !ObjectEqual(co, te[i]) {
 					eq = false
 					break
 				}
